@@ -433,6 +433,13 @@ def obs_C06(g, out):
                  "hi_c": Q(upper_face(g, "zShift", "ylow"), QANG), "hi_l": Q(upper_face(g, "zShift", "corners"), QANG),
                  "corner": Q(region_assemble(g, "zShift", "corners"), QANG)}
     out["shiftangle"] = Q(g.var("ShiftAngle"), QANG)
+    # ShiftAngle on the x-faces is not written, but chi_xlow = 2 pi zShift_xlow / ShiftAngle_xlow is: the value the file implies, per x
+    # (median over the cells of the closed surface where chi is away from zero; NaN where chi_xlow is undefined)
+    with np.errstate(invalid="ignore", divide="ignore"):
+        chx, zsx = g.var("chi_xlow"), g.var("zShift_xlow")
+        imp = np.where(np.abs(chx) > 0.3, 2 * np.pi * zsx / chx, np.nan)
+        row = np.array([np.nanmedian(imp[x]) if np.any(np.isfinite(imp[x])) else np.nan for x in range(imp.shape[0])])
+    out["shiftangle_xlow"] = Q(row, QANG)
     has_bt = float(np.nanmax(np.abs(g.var("Btxy")))) > 0
     out["has_bt"] = 1 if has_bt else 0
     # dphidy = hy*Bt/(Bp*R)  and ShiftTorsion = centred x-derivative of dphidy
